@@ -39,6 +39,7 @@ type FuncContract struct {
 	Requires []*Clause
 	Ensures  []*Clause
 	Invs     []*Clause
+	Sites    []*Clause // callsite assertions: LoopKey holds the callee key
 	Modifies []string // names; "nothing" => empty with ModifiesSet=true
 	ModSet   bool
 	Pure     bool // result is a function of the arguments (and pointees); no effects
@@ -227,6 +228,27 @@ func parseContractFile(path, pkg string) (*ContractFile, error) {
 				} else {
 					cur.Opts[strings.TrimSpace(kv[0])] = "true"
 				}
+				continue
+			}
+			if strings.HasPrefix(t, "callsite ") {
+				rest := strings.TrimSpace(t[9:])
+				sp := strings.IndexByte(rest, ' ')
+				if sp < 0 {
+					return nil, fail("callsite needs a callee and an expression")
+				}
+				callee := rest[:sp]
+				name, props, body, err := splitClauseHead(rest[sp+1:])
+				if err != nil {
+					return nil, fail(err.Error())
+				}
+				ex, err := parseContractExpr(body)
+				if err != nil {
+					return nil, fail(err.Error())
+				}
+				if name == "" {
+					name = fmt.Sprintf("s%d", len(cur.Sites)+1)
+				}
+				cur.Sites = append(cur.Sites, &Clause{Kind: "callsite", Name: name, Props: props, Src: body, Expr: ex, Line: l.no, LoopKey: callee})
 				continue
 			}
 			m := clauseHead.FindStringSubmatch(t)
